@@ -40,6 +40,7 @@ structure DAcc where
   curNontrivial : Bool := false
   hashes : List UInt64 := []
   curHash : UInt64 := 7
+  shapeOff : Bool := false   -- fifo/pq: the internal layout has already diverged in this case; outputs are still compared
 
 def fifoShape (s : Fifo.State Nat) : String :=
   match Fifo.shape s with
@@ -190,7 +191,7 @@ partial def diffLoop (h : IO.FS.Stream) (a : DAcc) : IO DAcc := do
       | "codec", _ => .codec
       | "jobcfg", _ => .jobcfg
       | _, _ => .none
-    diffLoop h { a with st := st, case_ := c, curHash := mixHash 7 (hash line) }
+    diffLoop h { a with st := st, case_ := c, curHash := mixHash 7 (hash line), shapeOff := false }
   | "D" :: c :: op :: rest =>
     -- split "args… => out # shape"
     let args := rest.takeWhile (· != "=>")
@@ -205,8 +206,19 @@ partial def diffLoop (h : IO.FS.Stream) (a : DAcc) : IO DAcc := do
       diffLoop h { a with ops := a.ops + 1, bad := a.bad + 1 }
     | .ok (st', mout, mshape, nt) =>
       let a := { a with st := st', ops := a.ops + 1, curNontrivial := a.curNontrivial || nt, curHash := mixHash a.curHash (hash (op :: args)) }
-      if mout != out || mshape != shape then
+      let isQueue := match a0st with | .fifo _ => true | .pq _ => true | _ => false
+      if isQueue && mout == out && (a.shapeOff || mshape != shape) then
+        -- same answer, different internal layout: the correspondence is broken (reported once per case), but the
+        -- abstract contents still agree, so the case goes on and the answers keep being compared: an answer that
+        -- differs later is a failing input for the queue's specification
+        if !a.shapeOff then
+          IO.println s!"DIFFBAD {c} op#{a.ops} {op} {" ".intercalate args}: implementation {out} # {shape}; model {mout} # {mshape}"
+        diffLoop h { a with bad := a.bad + (if a.shapeOff then 0 else 1), shapeOff := true }
+      else if mout != out || mshape != shape then
         IO.println s!"DIFFBAD {c} op#{a.ops} {op} {" ".intercalate args}: implementation {out} # {shape}; model {mout} # {mshape}"
+        if isQueue && mout != out then
+          -- the model is proved to answer as the FIFO / priority specification does (Proofs/Fifo, Proofs/PQRefine)
+          IO.println s!"DIFFVIOL {c} op#{a.ops} {op} {" ".intercalate args} answered {out}; the queue specification (what was enqueued, in order, minus what was dequeued or purged) answers {mout}"
         -- is the implementation's answer itself against the specification? (first disagreement of a case only:
         -- afterwards model and implementation are in different states)
         match a0st, op with
